@@ -181,6 +181,28 @@ let () =
                  Printf.sprintf "%s %s %s %s %s %s %s %s %d %d %s %s" (b c1) (b c2) (b perm) (b c3) (b fifo) (b f1) (b f2)
                    (b (f3 || not issat)) (List.length st.e_db) (List.length st.e_calls) (b quiet) (b asrt)
                | None -> "0 0 0 0 0 0 0 0 -1 -1 0 0")
+            | "enc2" ->
+              (* U P1 sevs1 P2 sevs2 db2 calls2 trail2 issat2 -> for the SECOND solve on the same solver (cache left by the first):
+                 clauses-equal calls-equal all-completed fifo req-true trail-equal final-ok no-repeat [model sizes] *)
+              let u = universe s in let p1 = problem s in let evs1 = rep s sev in
+              let p2 = problem s in let evs2 = rep s sev in let db = rep s clause in let calls = rep s pcall in
+              let trail = rep s lit in let issat = next s = 1 in
+              let up = table_provider u in
+              (match enc_run up p1 (estate0 cache0) [] [] evs1 with
+               | Some (st1, _) ->
+                 let c1 = st1.e_cache in
+                 let ((a1, a2), a3) = check_encoder_from c1 up p2 evs2 db calls in
+                 let ((f1, f2), f3) = check_encoder_final_from c1 up p2 evs2 trail in
+                 let fifo = fifo_ok up p2 (estate0 c1) [] [] evs2 in
+                 (* nothing of the first solve is requested again (candidates / dependencies / filter) *)
+                 let key = function CSort _ -> false | _ -> true in
+                 let norepeat = List.for_all (fun k -> not (key k) || not (List.mem k st1.e_calls)) calls in
+                 (match enc_run up p2 (estate0 c1) [] [] evs2 with
+                  | Some (st2, _) ->
+                    Printf.sprintf "%s %s %s %s %s %s %s %s %d %d" (b a1) (b a2) (b a3) (b fifo) (b f1) (b f2) (b (f3 || not issat))
+                      (b norepeat) (List.length st2.e_db) (List.length st2.e_calls)
+                  | None -> "0 0 0 0 0 0 0 0 -1 -1")
+               | None -> "0 0 0 0 0 0 0 0 -2 -2")
             | "logsat" ->
               (* U P log sol -> db-ok run-ok sat-ok [first bad clause index | -] *)
               let u = universe s in let p = problem s in let lg = log s in let sol = nlist s in
